@@ -99,3 +99,86 @@ func H_C12_reentry() {
 	b.SetSuccessThreshold("t", 0)
 	verifReach("C12.reentry.end")
 }
+
+// every exported Broker method, on its successful and on each of its early-return paths, leaves no lock behind (neither the
+// broker's nor a graph's threshold lock): afterwards a Send, a getter and a setter of the same type all return
+func H_C12_every_call_releases() {
+	b, _ := NewBroker()
+	ctx := &vCtx{}
+	f, s := &rNode{typ: NodeTypeFormatter}, &rNode{typ: NodeTypeSink}
+	b.RegisterNode("f", f)
+	b.RegisterNode("s", s)
+	b.RegisterNode("idle", &rNode{typ: NodeTypeSink})
+	b.RegisterPipeline(Pipeline{PipelineID: "p", EventType: "t", NodeIDs: []NodeID{"f", "s"}})
+	b.RegisterPipeline(Pipeline{PipelineID: "deny", EventType: "t", NodeIDs: []NodeID{"f", "s"}}, WithPipelineRegistrationPolicy(DenyOverwrite))
+	b.RegisterNode("denied", &rNode{typ: NodeTypeSink}, WithNodeRegistrationPolicy(DenyOverwrite))
+	op := symLen(0, 27)
+	verifNoteInt("op", op)
+	switch op {
+	case 0:
+		b.Send(ctx, "t", "payload")
+	case 1:
+		b.Send(ctx, "unknown", "payload")
+	case 2:
+		b.Reopen(ctx)
+	case 3:
+		b.RegisterNode("new", &rNode{typ: NodeTypeSink})
+	case 4:
+		b.RegisterNode("denied", &rNode{typ: NodeTypeSink})
+	case 5:
+		b.RegisterNode("", &rNode{typ: NodeTypeSink})
+	case 6:
+		b.RegisterNode("x", &rNode{typ: NodeTypeSink}, WithNodeRegistrationPolicy("bogus"))
+	case 7:
+		b.RemoveNode(ctx, "idle")
+	case 8:
+		b.RemoveNode(ctx, "f") // in use
+	case 9:
+		b.RemoveNode(ctx, "unknown")
+	case 10:
+		b.RemoveNode(ctx, "")
+	case 11:
+		b.RegisterPipeline(Pipeline{PipelineID: "q", EventType: "t", NodeIDs: []NodeID{"f", "s"}})
+	case 12:
+		b.RegisterPipeline(Pipeline{PipelineID: "deny", EventType: "t", NodeIDs: []NodeID{"f", "s"}})
+	case 13:
+		b.RegisterPipeline(Pipeline{PipelineID: "q", EventType: "t", NodeIDs: []NodeID{"f", "unknown"}})
+	case 14:
+		b.RegisterPipeline(Pipeline{PipelineID: "q", EventType: "t", NodeIDs: []NodeID{"s", "f"}}) // invalid shape
+	case 15:
+		b.RegisterPipeline(Pipeline{PipelineID: "", EventType: "t", NodeIDs: []NodeID{"f", "s"}})
+	case 16:
+		b.RegisterPipeline(Pipeline{PipelineID: "q", EventType: "t", NodeIDs: []NodeID{"f", "s"}}, WithPipelineRegistrationPolicy("bogus"))
+	case 17:
+		b.RemovePipeline("t", "p")
+	case 18:
+		b.RemovePipeline("unknown", "p")
+	case 19:
+		b.RemovePipeline("t", "")
+	case 20:
+		b.RemovePipelineAndNodes(ctx, "t", "p")
+	case 21:
+		b.RemovePipelineAndNodes(ctx, "t", "unknown")
+	case 22:
+		b.RemovePipelineAndNodes(ctx, "unknown", "p")
+	case 23:
+		b.SetSuccessThreshold("t", nondetInt())
+	case 24:
+		b.SetSuccessThresholdSinks("t", nondetInt())
+	case 25:
+		b.SuccessThreshold(EventType(verifIteStr(nondetBool(), "t", "unknown")))
+	case 26:
+		b.SuccessThresholdSinks(EventType(verifIteStr(nondetBool(), "t", "unknown")))
+	case 27:
+		b.IsAnyPipelineRegistered(EventType(verifIteStr(nondetBool(), "t", "unknown")))
+	}
+	verifAssert(verifNoLocksHeld(), "C12.every-call.lock-released-after-call")
+	// all of these would hang behind a lock left behind
+	b.SetSuccessThreshold("t", 0)
+	b.SetSuccessThresholdSinks("t", 0)
+	b.SuccessThreshold("t")
+	b.SuccessThresholdSinks("t")
+	b.Send(ctx, "t", "payload")
+	b.RegisterNode("after", &rNode{typ: NodeTypeSink})
+	verifReach("C12.every-call.end")
+}
